@@ -9,7 +9,7 @@ Ghost: K = set of live kernel watch descriptors; per-descriptor open flags; `rel
 from __future__ import annotations
 import z3
 from pyvc.sym import *
-from pyvc.engine import FnSpec, LoopSpec, Obligation, Raise
+from pyvc.engine import FnSpec, LoopSpec, Obligation, Raise, PathEnd
 from pyvc import ground
 from specs import inotify_table as T
 
@@ -192,6 +192,11 @@ class InoSpec(FnSpec):
     def on_with(self, ex, cv, node, entering):
         if isinstance(cv, VOpaque) and cv.kind == "lock":
             if entering:
+                # Inotify._lock is a plain threading.Lock: taking it while this thread already holds it blocks for ever
+                ex.oblige("acquire[the instance lock is not re-entrant: it is never taken by a thread that already holds it (self-deadlock of the reader: close() and every stop() behind it would block for ever)]",
+                          LOCK not in ex.held, kind="lock")
+                if LOCK in ex.held:
+                    raise PathEnd()
                 self.havoc(ex)
                 ex.held.append(LOCK)
                 self.sec_start = self.st(ex)
